@@ -154,6 +154,22 @@ structure JavaHeader where
   heap : Bool
   deriving Repr, DecidableEq, Inhabited
 
+/-- `isProfileType` (legacy_profile.go): the sample type NAMES are exactly one of the lists -/
+def isProfileType (st : List ValueType) (types : List (List Str)) : Bool := types.any (fun t => st.map (·.typ) == t)
+
+def heapzSampleTypes : List (List Str) :=
+  [[asc "allocations", asc "size"], [asc "objects", asc "space"], [asc "inuse_objects", asc "inuse_space"],
+   [asc "alloc_objects", asc "alloc_space"], [asc "alloc_objects", asc "alloc_space", asc "inuse_objects", asc "inuse_space"]]
+
+def contentionzSampleTypes : List (List Str) := [[asc "contentions", asc "delay"]]
+
+/-- `addLegacyFrameInfo`: DropFrames / KeepFrames follow from the sample types (a Java profile
+without a `resolution` attribute has none and gets the CPU filters) -/
+def legacyFrameInfo (st : List ValueType) : Str × Str :=
+  if isProfileType st heapzSampleTypes then (allocRxStr, allocSkipRxStr)
+  else if isProfileType st contentionzSampleTypes then (lockRxStr, [])
+  else (cpuProfilerRxStr, [])
+
 /-- assemble: location table in order of first use, one line for the addresses the trailer
 names (the last line for an address wins; a function keeps the file of the first line that
 introduced it), a catch-all mapping for unnamed non-zero addresses, all addresses cleared. -/
@@ -177,8 +193,8 @@ def javaAssemble (h : JavaHeader) (ss : List RawSample) (infos : List JavaInfo) 
     functions := fnOrder.zipIdx.map (fun (f, i) =>
       { id := i + 1, name := f, systemName := f, filename := fnFile f, startLine := 0 }),
     comments := [], docURL := [],
-    dropFrames := if h.heap then allocRxStr else lockRxStr,
-    keepFrames := if h.heap then allocSkipRxStr else [],
+    dropFrames := (legacyFrameInfo h.sampleType).1,
+    keepFrames := (legacyFrameInfo h.sampleType).2,
     timeNanos := 0, durationNanos := h.durationNanos, periodType := some h.periodType, period := h.period }
 
 def javaHeapRate : Nat := 524288
@@ -352,6 +368,12 @@ def javaLocLines (b : Str) : List Str :=
   let (ls, rem) := splitNL b
   ls ++ (if rem.isEmpty then [] else [rem])
 
+/-- the part of `CheckValid` (run by `Aggregate` at the end of `parseJavaProfile`) that can fail
+here: samples need sample types, and as many values as there are types (a Java profile without
+a `resolution` attribute has no sample types) -/
+def checkSampleTypes (p : Profile) : Bool :=
+  (p.sampleType.length != 0 || p.samples.isEmpty) && p.samples.all (fun s => s.values.length == p.sampleType.length)
+
 def parseJavaProfile (scale : ScaleFn) (b : Str) : Outcome Profile :=
   let (ls, rem) := splitNL b
   match ls with
@@ -376,7 +398,8 @@ def parseJavaProfile (scale : ScaleFn) (b : Str) : Outcome Profile :=
           | .err e => .err e
           | .panic e => .panic e
           | .ok infos =>
-            .ok (javaAssemble { sampleType := st.sampleType, periodType := st.periodType, period := st.period,
-                                durationNanos := st.durationNanos, heap := heap } ss infos)
+            let p := javaAssemble { sampleType := st.sampleType, periodType := st.periodType, period := st.period,
+                                    durationNanos := st.durationNanos, heap := heap } ss infos
+            if checkSampleTypes p then .ok p else .err "malformed profile"
 
 end PV.Legacy
